@@ -141,6 +141,32 @@ func runLS2PL(c *core.Ctx) {
 				"the shared cell is reachable without a successful tryEnsureLock(): another archetype's uncommitted write could be read or overwritten (dirty read / lost update)")
 		}
 	}
+	// (a') the end of a section touches the cell only while this handle holds the lock: a handle whose attempt failed on the
+	// lock timeout never held it, and the cell then carries another archetype's uncommitted write
+	for _, m := range []string{"Abort", "Commit", "PreCommit"} {
+		fn := mustMethod(c, e, an.PkgResources, "localShared", m)
+		if fn == nil {
+			continue
+		}
+		g := e.Graph(fn)
+		info := fn.Pkg.Info
+		uses := g.FindAtoms(func(a ast.Node) bool {
+			call, ok := a.(*ast.CallExpr)
+			if !ok {
+				return false
+			}
+			sel, ok := an.Unparen(call.Fun).(*ast.SelectorExpr)
+			return ok && an.SelectedField(info, sel.X) == cell
+		})
+		for i, u := range uses {
+			ok := guardedWhere(g, u, func(ex ast.Expr, val bool) bool {
+				return val && an.SelectedField(info, an.ResolveLocal(info, fn.Body(), ex)) == hasLock
+			})
+			c.Check(ok, fmt.Sprintf("localShared.%s:cell-use#%d-only-while-holding", m, i+1), u.Pos(),
+				"the shared cell is ended (committed / rolled back) only on the side of a test that this handle holds the lock",
+				"the shared cell is "+strings.ToLower(m)+"ed although this handle may not hold the lock (its attempt timed out acquiring it): it ends another archetype's section in the middle - that archetype's uncommitted write is rolled back, or published, under it")
+		}
+	}
 	// (b) tryEnsureLock sets hasLock only after a successful timed acquisition
 	if fn := mustMethod(c, e, an.PkgResources, "localShared", "tryEnsureLock"); fn != nil {
 		g := e.Graph(fn)
